@@ -259,6 +259,10 @@ class KeepAliveHarness:
                     h = held.pop(op[1])
                     op = ("close", op[1], h["tid"])
                     res = yield ("close", h["cm"])
+                    if res[0] != "ok":
+                        ex.violations.append(Violation("C09.held-response-broken", f"reading and closing a response that had been held open failed with {res} | "
+                                                       f"ct={self.ct} config={self.mc, self.mk, self.expiry} t={w.env.time} log={log + [op]}",
+                                                       {"harness": "keepalive", "kind": "held-response-broken", "proto": self.proto}))
                     if h["tid"] is not None:
                         # other streams may still be open on an HTTP/2 connection
                         still = any(x["tid"] == h["tid"] for x in held)
@@ -278,7 +282,11 @@ class KeepAliveHarness:
                 del rec.removals[:]
             # wind down
             for h in list(held):
-                yield ("close", h["cm"])
+                res = yield ("close", h["cm"])
+                if res[0] != "ok":
+                    ex.violations.append(Violation("C09.held-response-broken", f"reading and closing a response that had been held open failed with {res} | "
+                                                   f"ct={self.ct} config={self.mc, self.mk, self.expiry} t={w.env.time} log={log}",
+                                                   {"harness": "keepalive", "kind": "held-response-broken", "proto": self.proto}))
             held.clear()
             yield ("poolclose", None)
 
